@@ -25,6 +25,19 @@ def fuzz(workers, runs, **kw):
 NOT_CLAIMED = {}
 
 PROPS = {
+    "C02": dict(
+        level="exploration",
+        technique="structure-aware fuzzing (libFuzzer coverage guidance and rapidcheck tapes) of a libcoap endpoint on a virtual network: valid prefix to reach a protocol state, then raw and field-mutated hostile inputs; ASan/UBSan/assert + per-case watchdog + canary request + reference-decoder 'malformed is never delivered' oracle",
+        level_text="Server role over UDP, TCP and WebSocket and client role over UDP; states: observation, Block1 upload in progress, Block2 download in progress, TCP/WS before, during and after session setup; "
+                   "all log levels incl. DEBUG/OSCORE (coap_show_pdu walks every PDU again).",
+        level_note="Trusted base: sim/sim.cc, ref/refcodec.h (classification of malformed datagrams), sanitizer runtime. OSCORE-protected endpoints are attacked in C15's harness, DTLS/TLS records in C19's. 'Never loops forever' is a wall-clock watchdog of 60 s per case (normal cases take ~1 ms).",
+        quick=rc(6, 4000) + fuzz(6, 30000, max_len=700, timeout=60),
+        thorough=rc(4, 100000) + fuzz(12, 1500000, max_len=700, timeout=60),
+        libs=["-lcrypto"],
+        case_timeout=60,
+        timeout_is_violation=True,
+        **SIM,
+    ),
     "C12": dict(
         level="exploration",
         technique="stateful simulation-based property testing: generated request / reference / async / observe / time-jump / teardown histories from up to 50 scripted peers against a libcoap server (and client) on a virtual network; event and handler log against a session model, typed-allocation table, ASan and LeakSanitizer as lifetime oracle",
